@@ -11,7 +11,7 @@ ENGINES = [
      "kind_free_text": "complete Cartesian products of finite input alphabets executed on the real code and compared with an explicit oracle or metamorphic relation"},
     {"name": "fault", "path": "/verif/mc/props/C08.py", "serves_properties": ["C08"],
      "kind_free_text": "fault-point enumerator: public-API fault menu x position and sys.settrace call-level injection, snapshot oracle"},
-    {"name": "hist", "path": "/verif/mc/props", "serves_properties": ["C03", "C09", "C10", "C11", "C18", "C20"],
+    {"name": "hist", "path": "/verif/mc/props", "serves_properties": ["C03", "C09", "C10", "C11", "C13", "C18", "C20"],
      "kind_free_text": "explicit-state BFS over the real API: states rebuilt by history replay on fresh "
                        "objects, canonical form by names, invariant + reference model after every transition"},
 ]
@@ -176,5 +176,15 @@ CHECKS["C12"] = dict(
          "for currents and 1/s^3 for dipoles; TriangularMesh status flags and reoriented faces must be identical at every scale.",
     note="Tolerance 1e-7 (1e-5 next to edge extension lines), never sharper than C01's accuracy model for the cell, relative to "
          "max(|X|, 1e-3 max|X|). 17 known-finding patterns (absolute tolerances in CylinderSegment, triangle_Bfield, TriangularMesh inside test).")
+CHECKS["C13"] = dict(
+    engine="hist", level="model_checking", design_ref="DESIGN.md §4 C13",
+    technique="explicit-state BFS over cut operations on bodies (states = multisets of parts, deduplicated) with the sum-of-parts = whole invariant on the real classes, plus an exhaustive cross-representation menu",
+    text="Cuboid: every partition reachable by <=2 (thorough 3) cuts at fractions 0.3/0.5/0.8 along x/y/z (172 / 4546 partitions), as "
+         "Cuboids and as convex-hull TriangularMeshes; Cylinder: angular (90, 200 deg), radial (0.4, 0.7) and axial (0.3, 0.6) cuts to "
+         "depth 2 (3), parts as CylinderSegments in three angle conventions (positive, negative, mixed); Tetrahedron: edge splits; "
+         "each state summed and compared with the uncut body for B and H, 3 polarizations, 3 poses, observers inside one part / outside / "
+         "far. Menu of 23 cross-representations (mesh, convex hull, 5- and 6-tetrahedra, Triangle sheets for H, converters, shifted / "
+         "beyond-360 angle ranges, hollow difference, Sphere=Dipole outside, N-gon->Circle with err*N^2 constant for N=8..1024).",
+    note="rel. tolerance 1e-8 of max(|X|,|J|); observers have generic coordinates on no cut plane.")
 _todo = "check not built yet in this session (planned, see DESIGN.md §4); nothing is claimed for it"
 NOT_APPLICABLE = [{"property_id": f"C{i:02d}", "reason": _todo} for i in range(1, 21) if f"C{i:02d}" not in CHECKS]
